@@ -77,6 +77,9 @@ mod oid;
 mod ring_like;
 mod sign_algo;
 pub mod string;
+#[cfg(rustls_rcgen_verif)]
+#[doc(hidden)]
+pub mod verif_hooks;
 
 /// Type-alias for the old name of [`Error`].
 #[deprecated(
